@@ -131,7 +131,14 @@ def load_known():
         d = json.loads(KNOWN.read_text())
     else:
         d = {}
-    return d.get("findings", []), d.get("fixed", [])
+    findings, fixed = list(d.get("findings", [])), list(d.get("fixed", []))
+    dd = VERIF / "known_findings.d"          # per-property fragments (merged into known_findings.json by the coordinator)
+    if dd.exists():
+        for f in sorted(dd.glob("*.json")):
+            x = json.loads(f.read_text())
+            findings += x.get("findings", [])
+            fixed += x.get("fixed", [])
+    return findings, fixed
 
 
 class Violation:
@@ -185,7 +192,7 @@ def coq_make(targets=None, timeout=3000):
             if rc != 0:
                 return False, out
         tgt = " ".join(targets) if targets else ""
-        rc, out = sh(f"timeout {timeout} make -j{NPROC} {tgt}", cwd=COQ, timeout=timeout + 30)
+        rc, out = sh(f"timeout {timeout} make -k -j{NPROC} {tgt}", cwd=COQ, timeout=timeout + 30)
         return rc == 0, out
 
 
